@@ -31,6 +31,11 @@ namespace {
   // one ordered log of every seam call of the run (cache and generators interleaved), for the trace and for the
   // "no set after a failed generation" check
   std::stringstream seam_log_;
+  // writing to the log is harness bookkeeping: its allocations do not count for the allocation seam
+  struct SLog {
+    AllocPause pause;
+    template <typename T> SLog& operator<<(const T& x) { seam_log_ << x; return *this; }
+  };
 
   // ---------------------------------------------------------------------------------------------- cache
   // The simulator scripts every answer: get_script[k] decides the k-th get() (0 = answer from the store,
@@ -42,23 +47,23 @@ namespace {
     ak::ContentPtr get(const std::string& key) const override {
       long k = ngets_++;
       int act = k < (long)get_script_.size() ? get_script_[(size_t)k] : 0;
-      if (broken_) { seam_log_ << "cache get " << key << " broken\n"; return ak::ContentPtr(nullptr); }
+      if (broken_) { SLog() << "cache get " << key << " broken\n"; return ak::ContentPtr(nullptr); }
       if (act == 1) {
         bool had = store_.erase(key) > 0;
-        seam_log_ << "cache get " << key << (had ? " evicted\n" : " miss\n");
+        SLog() << "cache get " << key << (had ? " evicted\n" : " miss\n");
         return ak::ContentPtr(nullptr);
       }
       auto it = store_.find(key);
-      if (it == store_.end()) { seam_log_ << "cache get " << key << " miss\n"; return ak::ContentPtr(nullptr); }
-      seam_log_ << "cache get " << key << " hit\n";
+      if (it == store_.end()) { SLog() << "cache get " << key << " miss\n"; return ak::ContentPtr(nullptr); }
+      SLog() << "cache get " << key << " hit\n";
       return it->second;
     }
     void set(const std::string& key, const ak::ContentPtr& value) override {
       long k = nsets_++;
       int act = k < (long)set_script_.size() ? set_script_[(size_t)k] : 0;
-      if (broken_  ||  act == 1) { seam_log_ << "cache set " << key << " lost\n"; return; }
+      if (broken_  ||  act == 1) { SLog() << "cache set " << key << " lost\n"; return; }
       store_[key] = value;
-      seam_log_ << "cache set " << key << " stored\n";
+      SLog() << "cache set " << key << " stored\n";
     }
     bool is_broken() const override { return broken_; }
     const std::string tostring_part(const std::string& indent, const std::string& pre, const std::string& post) const override {
@@ -92,24 +97,24 @@ namespace {
       int act = k < (long)st_->script.size() ? st_->script[(size_t)k] : 0;
       switch (act) {
         case 1:
-          seam_log_ << "gen " << st_->key << " throw\n";
+          SLog() << "gen " << st_->key << " throw\n";
           throw std::runtime_error("simulated generator failure");
         case 2:
           if (st_->truth->length() > 0) {
-            seam_log_ << "gen " << st_->key << " short\n";
+            SLog() << "gen " << st_->key << " short\n";
             return st_->truth->getitem_range_nowrap(0, st_->truth->length() - 1);
           }
           break;
         case 3:
-          if (st_->wrong.get() != nullptr) { seam_log_ << "gen " << st_->key << " wrong_form\n"; return st_->wrong; }
+          if (st_->wrong.get() != nullptr) { SLog() << "gen " << st_->key << " wrong_form\n"; return st_->wrong; }
           break;
         case 4:
-          if (st_->longer.get() != nullptr) { seam_log_ << "gen " << st_->key << " long\n"; return st_->longer; }
+          if (st_->longer.get() != nullptr) { SLog() << "gen " << st_->key << " long\n"; return st_->longer; }
           break;
         default:
           break;
       }
-      seam_log_ << "gen " << st_->key << " ok\n";
+      SLog() << "gen " << st_->key << " ok\n";
       return st_->truth;
     }
     void caches(std::vector<ak::ArrayCachePtr>& out) const override { }
@@ -273,7 +278,7 @@ extern "C" {
     long n = 0;
     if (key == nullptr  ||  key[0] == 0) { n = (long)c->store_.size(); c->store_.clear(); }
     else n = (long)c->store_.erase(std::string(key));
-    seam_log_ << "cache evict " << (key ? key : "") << " " << n << "\n";
+    SLog() << "cache evict " << (key ? key : "") << " " << n << "\n";
     return n;
     AWS_CATCH(-1)
   }
